@@ -404,32 +404,25 @@ def domain(cname, vals):
     exp = set()
     if any(bad_type):
         exp.add("TypeError")
-    good = [v for v, b in zip(vals, bad_type) if not b]
-    if any(type(v) is float and math.isnan(v) for v in good):
-        # NaN satisfies no documented range
-        if cname == "DistConstant":
-            return "unspecified", set()
-        return "out", exp | {"ValueError"}
-
     def num(i):
         return None if bad_type[i] else vals[i]
     viol = False
     unspecified = False
 
-    def pos(i):
+    def pos(i):              # documented "ValueError when x <= 0": the domain is x > 0 (a NaN is not > 0)
         nonlocal viol, unspecified
         v = num(i)
         if v is None:
             return
-        if v <= 0:
+        if not v > 0:
             viol = True
         elif math.isinf(v):
             unspecified = True
 
-    def fin(i):
+    def fin(i):              # no documented range: NaN / inf are neither inside nor outside
         nonlocal unspecified
         v = num(i)
-        if v is not None and type(v) is float and math.isinf(v):
+        if v is not None and type(v) is float and not math.isfinite(v):
             unspecified = True
 
     def prob(i):
@@ -437,18 +430,26 @@ def domain(cname, vals):
         v = num(i)
         if v is not None and not (0 <= v <= 1):
             viol = True
-    if cname in ("DistBernoulli", "DistGeometric"):
+
+    def prob_open(i):        # geometric / negative binomial: Law & Kelton's p in (0, 1)
+        nonlocal viol
+        v = num(i)
+        if v is not None and not (0 < v < 1):
+            viol = True
+    if cname == "DistBernoulli":
         prob(0)
+    elif cname == "DistGeometric":
+        prob_open(0)
     elif cname in ("DistBeta", "DistGamma", "DistPearson5", "DistWeibull"):
         pos(0); pos(1)
     elif cname == "DistPearson6":
         pos(0); pos(1); pos(2)
     elif cname in ("DistBinomial", "DistNegBinomial"):
-        prob(1)
+        (prob if cname == "DistBinomial" else prob_open)(1)
         if num(0) is not None and num(0) <= 0:
             viol = True
     elif cname == "DistConstant":
-        pass
+        fin(0)
     elif cname == "DistDiscreteUniform":
         if num(0) is not None and num(1) is not None and num(0) >= num(1):
             viol = True
@@ -464,7 +465,7 @@ def domain(cname, vals):
         fin(0); pos(1)
         lo, hi = num(2), num(3)
         if lo is not None and hi is not None:
-            if hi <= lo:
+            if not lo < hi:
                 viol = True
             elif not viol and not unspecified and num(0) is not None and num(1) is not None:
                 mu, sg = float(num(0)), float(num(1))
@@ -481,20 +482,18 @@ def domain(cname, vals):
         for v in (lo, mode, hi):
             if v is not None and type(v) is float and math.isinf(v):
                 unspecified = True
-        if lo is not None and mode is not None and mode < lo:
+        if lo is not None and mode is not None and not lo <= mode:
             viol = True
-        if hi is not None and mode is not None and mode > hi:
+        if hi is not None and mode is not None and not mode <= hi:
             viol = True
-        if lo is not None and hi is not None and lo == hi:
-            viol = True
-        if lo is not None and hi is not None and hi < lo:
+        if lo is not None and hi is not None and not lo < hi:
             viol = True
     elif cname == "DistUniform":
         lo, hi = num(0), num(1)
         for v in (lo, hi):
             if v is not None and type(v) is float and math.isinf(v):
                 unspecified = True
-        if lo is not None and hi is not None and hi <= lo:
+        if lo is not None and hi is not None and not lo < hi:
             viol = True
     if viol:
         exp.add("ValueError")
@@ -581,20 +580,22 @@ def classify_draw_raise(cname, vals, exc, msg, consumed_vals):
         if cname in ("DistGeometric", "DistNegBinomial"):
             p = vals[0] if cname == "DistGeometric" else vals[1]
             if 1.0 - p == 1.0:
-                return f"ctor-accepts-p-0:{cname}"
+                return f"draw-raises-zero-division:{cname}"       # 0 < p < 2^-53: 1.0 - p rounds to 1.0, ln = 0
         if cname in ("DistPearson5", "DistPearson6", "DistBeta"):
             return f"draw-raises-zero-division:{cname}"       # an inner gamma draw was 0.0
     if exc == "OverflowError" and cname in ("DistLogNormal", "DistWeibull"):
         return f"draw-raises-overflow:{cname}"                # math.exp / math.pow beyond the double range
     if exc == "ValueError" and "math domain error" in msg:
+        # a uniform below 2^-64 (no 53-bit generator delivers one) makes products of uniforms underflow;
+        # it takes precedence over a 0.0 in the same draw (every class also runs on scripts with 0.0 alone)
+        if any(0.0 < u < TINY_LIMIT for u in consumed_vals):
+            return f"draw-raises-on-tiny-uniform:{cname}"
         if any(u == 0.0 for u in consumed_vals):
             return f"draw-raises-on-uniform-0.0:{cname}"
         if cname in ("DistNormal", "DistLogNormal"):
             for a, b in zip(consumed_vals, consumed_vals[1:]):
                 if a == 0.5 and b == 0.5:
                     return f"draw-raises-on-uniforms-0.5-0.5:{cname}"
-        if any(0.0 < u < TINY_LIMIT for u in consumed_vals):
-            return f"draw-raises-on-tiny-uniform:{cname}"
     if extreme_params(vals):
         return f"draw-raises-for-extreme-parameter:{cname}"
     return f"draw-raises:{cname}"
@@ -631,13 +632,14 @@ def oracle(case, res):
                     findings.append((f"ctor-consumes-stream:{cname}", f"constructing {cname}{vals} consumed stream output", k))
                 if dom == "out":
                     nanp = any(type(v) is float and v != v for v in vals)
-                    sig = f"ctor-accepts-nan:{cname}" if nanp else f"ctor-accepts-outside-domain:{cname}"
+                    p0 = cname in ("DistGeometric", "DistNegBinomial") and (vals[0] if cname == "DistGeometric" else vals[1]) == 0.0
+                    sig = (f"ctor-accepts-nan:{cname}" if nanp else f"ctor-accepts-p-0:{cname}" if p0
+                           else f"ctor-accepts-outside-domain:{cname}")
                     findings.append((sig, f"{cname}{tuple(vals)} is outside the documented domain but was accepted", k))
             else:
                 exc = out[1]
                 if dom == "in":
-                    p1 = cname in ("DistGeometric", "DistNegBinomial") and (vals[0] if cname == "DistGeometric" else vals[1]) == 1.0
-                    sig = f"ctor-rejects-p-1:{cname}" if p1 else f"ctor-rejects-inside-domain:{cname}"
+                    sig = f"ctor-rejects-inside-domain:{cname}"
                     findings.append((sig, f"{cname}{tuple(vals)} is inside the documented domain but the constructor raised {exc}: {out[2]}", k))
                 elif dom == "out" and exc not in exp:
                     findings.append((f"ctor-wrong-exception:{cname}", f"{cname}{tuple(vals)}: raised {exc}, documented {sorted(exp)}", k))
@@ -1110,6 +1112,9 @@ def main(tier: str) -> int:
     run.cov["pow_unresolved_cases"] = len(unresolved)
     failing_cases = {i for i, _, _, _ in all_findings}
     unexplained = sorted(mism - failing_cases)
+    if os.environ.get("C14_DEBUG"):
+        for i in sorted(mism):
+            print("MISMATCH", i, i in failing_cases, json.dumps(public(cases[i]))[:600], json.dumps(results[i]["outs"])[:600])
     if unexplained:
         i = unexplained[0]
         run.violation("model-impl-disagree",
